@@ -557,8 +557,8 @@ def hashctx_batch(job):
 
 TIERS = {
     # runs, sim seconds cap, hash contexts, hashctx corpus extra docs
-    "quick": {"runs": 2400, "sim_s": 35, "ctx": 24, "docs": 600, "ctx_s": 60,
-              "sweep_pairs": 6, "sweep_stride": 1, "sweep_all_pairs": 0, "sweep_s": 30, "base_s": 22,
+    "quick": {"runs": 2400, "sim_s": 30, "ctx": 24, "docs": 600, "ctx_s": 60,
+              "sweep_pairs": 6, "sweep_stride": 1, "sweep_all_pairs": 0, "sweep_s": 42, "base_s": 20,
               "sweep_double": 60, "sweep_opcode_pairs": 0, "sweep_lasts": False, "sweep_cancel_stride": 2},
     "thorough": {"runs": 60000, "sim_s": 900, "ctx": 192, "docs": 4000, "ctx_s": 500,
                  "sweep_pairs": 150, "sweep_stride": 1, "sweep_all_pairs": 12, "sweep_s": 800, "base_s": 400,
@@ -736,7 +736,7 @@ class Checker:
             fr = [tg.pick(ties)] if ties and g.random() < 0.5 else None
             # half of the sweep documents exercise the court lookup for sure (its
             # first use in a process is a lazy-initialisation site)
-            tg.force_paren = g.random() < 0.35
+            tg.force_paren = (sw["pairs"] % 3 == 1) or g.random() < 0.2
             t = tg.document(n_items=g.randrange(1, 3), frags=None)
             tg.force_paren = False
             if fr:
@@ -779,6 +779,12 @@ class Checker:
             x = g.random()
             ma, mb_ = (("markup", "markup") if x < 0.3 else ("plain", "plain") if x < 0.65 else
                        ("ra", "plain") if x < 0.8 else ("markup", "plain") if x < 0.9 else ("plain", "markup"))
+            # the first pairs of every run rotate through the modes, so that even a
+            # short sweep covers markup mode, the court lookup and plain mode
+            if sw["pairs"] % 3 == 0:
+                ma, mb_ = "markup", "markup"
+            elif sw["pairs"] % 3 == 1:
+                ma, mb_ = "plain", "plain"
             opa, opb = mkop(a, ma), mkop(b, mb_)
             # after the interleaved calls each thread extracts the *other* document
             # once more, so that state polluted inside the window shows in a later,
@@ -1095,6 +1101,32 @@ class Checker:
         scn3 = dict(scn2, table=table)
         if scn3.get("setorder", "off") != "off" and budget.take() and ok(dict(scn3, setorder="off")):
             scn3 = dict(scn3, setorder="off")
+        # shrink the documents (each distinct text / markup string, longest first);
+        # recorded decisions are keyed by line events inside an op, so they are
+        # dropped when a text changes unless the scenario is sequential
+        from sim.minimize import shrink_text
+
+        strings = []
+        for th in scn3["threads"]:
+            for o in th:
+                for fld in ("text", "markup"):
+                    v = o.get(fld)
+                    if v and len(v) > 12 and (fld, v) not in strings:
+                        strings.append((fld, v))
+        strings.sort(key=lambda x: -len(x[1]))
+        sequential = not any(x[3] == "switch" for x in scn3["table"])
+        for fld, v in strings[:3]:
+            if budget.left <= 0 or not sequential:
+                break
+
+            def with_text(new, fld=fld, v=v):
+                ths = [[dict(o, **{fld: new}) if o.get(fld) == v else o for o in th]
+                       for th in scn3["threads"]]
+                return dict(scn3, threads=ths)
+
+            small = shrink_text(v, lambda t: ok(with_text(t)), budget)
+            if small != v:
+                scn3 = with_text(small)
         return scn3
 
     def judge(self):
